@@ -52,6 +52,15 @@ class Spec:
     def PV(self):
         return self.S.PV(self.ip)
 
+    @property
+    def PVX(self):
+        """An arbitrary parameter valuation unrelated to the current store: statements made at PVX hold for every later
+        heap (C12); code that reads a parameter's *current* value while building a tree cannot satisfy them."""
+        g = self.ip.path.ghost
+        if "PVX" not in g:
+            g["PVX"] = sym.fresh("PVX", sym.PVSort)
+        return g["PVX"]
+
     def kind_is(self, v, cls: str):
         return self.K.is_kind(self.ref(v), cls)
 
